@@ -72,15 +72,6 @@ Definition filter_clone (sch : schema) (ty : string) (m : mask) (v : value) : ou
    children); a field is visited when some path goes through it, with the remainders of exactly those
    paths; a path through a repeated field applies to every element; below a node with no fields
    (scalar, map) there is nothing to choose from and the node is kept whole. *)
-Definition deriv (k : string) (ps : list path) : list path :=
-  flat_map (fun p => match p with
-                     | s :: r => if String.eqb s k then [r] else []
-                     | [] => []
-                     end) ps.
-
-Definition ends_here (ps : list path) : bool :=
-  existsb (fun p => match p with [] => true | _ :: _ => false end) ps.
-
 Fixpoint project (ps : list path) (v : value) {struct v} : value :=
   if ends_here ps then v else
   match v with
